@@ -564,11 +564,15 @@ Notes:
             # for len(trialEnergy) > 1, will throw ValueError below
 
         #FIXME: manually adjusts fcalls due to use of map
-        fcalls = len(self._evalmon)
-        if fcalls: # leverage the evalmon
-            self._fcalls[0] = fcalls
-        else: # use trialEnergy, removing 'skipped' evaluations
-            self._fcalls[0] += len(trialEnergy) - isinf(trialEnergy).sum()
+        # count the evaluations, removing trials 'skipped' by wrap_bounds
+        skipped = 0
+        if self._useStrictRange:
+            from numpy import any as _any, seterr
+            lo, hi = self._strictMin, self._strictMax
+            settings = seterr(all='ignore')
+            skipped = sum(bool(_any((asarray(x)<lo)|(asarray(x)>hi))) for x in self.trialSolution)
+            seterr(**settings)
+        self._fcalls[0] += len(trialEnergy) - skipped
 
         for candidate in range(self.nPop):
             if trialEnergy[candidate] < self.popEnergy[candidate]:
